@@ -1,5 +1,5 @@
 SPEC = {
-    "corr": [{"kind": "sflowf", "quick": 16000, "thorough": 300000}],
+    "corr": [{"kind": "sflowf", "quick": 40000, "thorough": 600000}],
     "rule": "the C07 datagram generator with 1..6 samples and always a filter list (flow, counter, both, expanded types, "
             "unknown types, values that cannot match a 12-bit format, the type of the first sample so that a filtered sample "
             "precedes unfiltered ones); oracle: abstract datagram minus the listed types, and the unfiltered decode of the "
